@@ -58,8 +58,10 @@ def resolveClipPath (url : String) (T : Aff Float) : (fuel : Nat) → DocM ClipP
     for ch in cp.children.filter Node.isLxmlNode do
       if !ch.isElem then fail .typeError
       if !isShapeTag ch.tag then fail .valueError           -- from_element: "Bad tag"
-      -- clip-rule set on the clipPath is inherited by a child without its own
-      let inh : Attrs := match cp.getAttr "clip-rule" with | some v => [("clip-rule", v)] | none => []
+      -- clip-rule set on the clipPath or on one of its ancestors (the nearest wins) is inherited by a child without its own
+      let inh : Attrs := match ((cp :: Node.ancestors root cp.uid).filterMap (fun n => n.getAttr "clip-rule")).head? with
+        | some v => [("clip-rule", v)]
+        | none => []
       let sh ← liftE (ShapeRec.fromElement ch inh)
       let Tc ← liftE (elementTransform ch T1)
       let d ← applyTransformD sh Tc
@@ -127,9 +129,9 @@ def dashArray (s : String) : Except PyErr (List Float) := do
 def strokePieces (shape : ShapeRec) (d : String) : ShapeRec × ShapeRec :=
   let st0 := shape.set "d" (.s d)
   let st1 := (st0.set "fill_rule" (.s "nonzero")).set "clip_rule" (.s "nonzero")
-  let st2 := st1.set "opacity" (.f (st1.getF "opacity" * st1.getF "stroke_opacity"))
+  let st2 := st1.set "opacity" (.f (clampOpacity (st1.getF "opacity") * clampOpacity (st1.getF "stroke_opacity")))
   let st3 := st2.set "fill" (.s (st2.getS "stroke"))
-  let sh1 := shape.set "opacity" (.f (shape.getF "opacity" * shape.getF "fill_opacity"))
+  let sh1 := shape.set "opacity" (.f (clampOpacity (shape.getF "opacity") * clampOpacity (shape.getF "fill_opacity")))
   let sh2 := resetStrokeFields (sh1.set "fill_opacity" (.f 1.0))
   let st4 := resetStrokeFields (st3.set "fill_opacity" (.f 1.0))
   (sh2, st4)
@@ -249,10 +251,10 @@ def usedGradientIds : DocM (List String) := do
       fills := fills ++ [sh.getS "fill"]
   for n in root.elems do
     if (Node.splitNs n.tag).1 == some svgNs && ["text", "tspan", "textPath"].contains n.localTag then
-      fills := fills ++ [(n.getAttr "fill").getD ""]
+      fills := fills ++ [(n.getAttr "fill").getD "", (n.getAttr "stroke").getD ""]
   let mut used : List String := []
   for f in fills do
-    if f.startsWith "url(" then
+    if "url(".toList.isPrefixOf (f.toList.dropWhile isReWs) then
       match resolveUrl root f "*" with
       | .ok el => if isGradientTag el.tag then used := used ++ [(el.getAttr "id").getD ""]
       | .error _ => pure ()
@@ -292,6 +294,10 @@ def simplifyCore : DocM Unit := do
   let defsUid ← freshUid
   let root ← getRoot
   setRoot (root.setChildren (.elem defsUid (Node.svgTag "defs") [] [] :: root.children))
+  -- every gradient takes from its template what the source says, before any gradient is rewritten
+  let root ← getRoot
+  for g in root.elems.filter (fun n => (Node.splitNs n.tag).1 == some svgNs && isGradLocal n.localTag) do
+    applyGradientTemplate g.uid 200
   for c in ctxs.reverse do
     let root ← getRoot
     match Node.findUid root c.uid with
